@@ -165,6 +165,21 @@ class Checker:
                 js = [j for j, _s in rows]
                 if js != sorted(js):
                     add('innov_order', 'innovations[%s] rows not in time order' % name)
+        # --- (1b) no division by a time quantity that can be zero on this path ------------
+        seen_den = set()
+        for e in log:
+            if e[0] != 'div':
+                continue
+            den = e[1]
+            k = den.v.get_id()
+            if k in seen_den:
+                continue
+            seen_den.add(k)
+            if z3.is_rational_value(den.v) and den.v.numerator_as_long() != 0:
+                continue
+            out['nobl'] += 1
+            if ex.feasible(den.v == 0):
+                add('division_by_zero', 'a time quantity that can be exactly zero on this schedule is used as a divisor (%s)' % z3.simplify(den.v), den.v == 0)
         # --- (2) kind-specific ---------------------------------------------------------
         if h.kind == 'feedback':
             self._feedback_obligations(ex, res, log, out, add)
@@ -332,10 +347,11 @@ def replay_schedule(spec):
         times = np.array(times, dtype=float)
         if name == 'Position':
             data = pd.DataFrame({'lat': 50.0 + 1e-6 * np.arange(len(times)), 'lon': 30.0, 'alt': 100.0}, index=times)
-            m = measurements.Position(data, 5.0)
+            # lever arms make the measurement models read the attitude and the body rates of the predicted state
+            m = measurements.Position(data, 5.0, imu_to_antenna_b=np.array([1.0, 0.5, -0.3]))
         elif name == 'NedVelocity':
             data = pd.DataFrame({'VN': 1.0, 'VE': -2.0, 'VD': 0.1 * np.arange(len(times))}, index=times)
-            m = measurements.NedVelocity(data, 0.5)
+            m = measurements.NedVelocity(data, 0.5, imu_to_antenna_b=np.array([1.0, 0.5, -0.3]))
         else:
             data = pd.DataFrame({'VX': 1.0, 'VY': 0.0, 'VZ': 0.1}, index=times)
             m = measurements.BodyVelocity(data, 0.5)
